@@ -25,12 +25,14 @@ META = {
               "sim-start stage, sim end) and the kernel loop with the emission buffer: for every stack, every scripted behaviour, every event kind the "
               "call log of an event is start0 inc0? ... handler? end_{k-1} ... end0 (C14.bracket_shape), inc_i present iff no earlier element consumed, "
               "handler skipped iff consumed, start/end exactly once in (reverse) stack order, the global log of any run is a concatenation of complete "
-              "brackets (C14.brackets_do_not_interleave), pushes are made and flushed in program order. Tied to the code by running thousands of real "
+              "brackets (C14.brackets_do_not_interleave), pushes are made and flushed in program order; the module lifecycle is part of the model (shutdown requests from any hook, down time, restart event "
+              "replaying all start stages on the same element instances): a module that is shut down logs no hook and no handler call until its own restart event (C14.inactive_no_hooks, inactive_until_restart), "
+              "and over all events of all lifecycles every message bracket contains exactly one handler call iff no element consumed the message (C14.handler_iff_unconsumed_everywhere). Tied to the code by running thousands of real "
               "des simulations with scripted elements/handlers and comparing the whole call log with the model's."),
         design_ref="DESIGN.md §5 C14",
         note=("Trusted: Lean kernel; axioms propext/Classical.choice/Quot.sound; hand transcription Rust->Lean (validated by the correspondence runs); "
-              "tokio polling order modelled as observed; harness, driver parser, orchestrator. Out of scope: panicking events (event_end skipped after a "
-              "non-caught handler panic), shutdown/restart, dispatch order inside the calendar queue (C01/C03)."),
+              "tokio polling order modelled as observed; harness, driver parser, orchestrator. Out of scope: panicking events (non-caught: event_end skipped by `?`; caught: module deactivated, event_end still runs - read, not modelled), "
+              "shutdown requests from reset/tasks/at_sim_end; at_sim_end brackets shut-down modules too (modelled as the code does); dispatch order inside the calendar queue (C01/C03)."),
         technique=_T),
     "C07": dict(
         text=("Lean 4 theorems: the model of des::net::channel::Channel (busy flag, transmission_finish_time, byte-counted FIFO buffer, Drop/Queue policies, "
